@@ -86,8 +86,7 @@ def run(ctx):
         scns.add(rp, rp["exp"], rp["tc"])
     else:
         n_single = scns.collect(ctx.tlc("Gen_Assert", "Gen_Assert_q.cfg" if q else "Gen_Assert_t.cfg", timeout=1500))
-        if not q:
-            n_pairs = scns.collect(ctx.tlc("Gen_Assert", "Gen_Assert_pairs.cfg", timeout=1500))
+        n_pairs = scns.collect(ctx.tlc("Gen_Assert", "Gen_Assert_pairs_q.cfg" if q else "Gen_Assert_pairs.cfg", timeout=1500))
         n_sim = scns.collect(ctx.tlc("Gen_Assert", "Gen_Assert_sim.cfg", workers=1, simulate="num=%d" % (100 if q else 1500),
                                      depth=5, timeout=1500))
     scns.close()
